@@ -743,10 +743,25 @@ func (p *Peer) retryDoc(ctx context.Context, peerIDString string, docID string) 
 		if err != nil {
 			return err
 		}
+		// The receiver resolves the collection by its version agnostic CollectionID, exactly as for a
+		// first push. The schema version ID of the block only happens to resolve on the receiver while
+		// it is the receiver's active version.
+		cols, err := clientTxn.GetCollections(
+			ctx,
+			client.CollectionFetchOptions{
+				VersionID: immutable.Some(head.block.Delta.GetSchemaVersionID()),
+			},
+		)
+		if err != nil {
+			return err
+		}
+		if len(cols) == 0 {
+			return client.NewErrCollectionNotFoundForCollectionVersion(head.block.Delta.GetSchemaVersionID())
+		}
 		updateEvent := event.Update{
 			DocID:        docID,
 			Cid:          head.cid,
-			CollectionID: head.block.Delta.GetSchemaVersionID(),
+			CollectionID: cols[0].Version().CollectionID,
 			Block:        rawblock,
 			IsRetry:      true,
 		}
